@@ -78,7 +78,7 @@ fn expression_is_call(expression: &ast::Expression) -> bool {
 
 fn expression_is_nil(expression: &ast::Expression) -> bool {
     match expression {
-        ast::Expression::Parentheses { expression, .. } => expression_is_call(expression),
+        ast::Expression::Parentheses { expression, .. } => expression_is_nil(expression),
         ast::Expression::Symbol(symbol) => {
             *symbol.token_type()
                 == TokenType::Symbol {
